@@ -527,6 +527,7 @@ fn c02_host(v: &Value) -> Value {
     let f = sub(v, "fb", "fl");
     let tail = sub(v, "tb", "tl");
     let (la, ra) = (b(&v["la"]), b(&v["ra"]));
+    let unanchored = b(&v["unanchored"]);
     let url = format!("s://{}{}", rh, tail);
     let mut mask = NetworkFilterMask::DEFAULT_OPTIONS | NetworkFilterMask::IS_HOSTNAME_ANCHOR;
     if la {
@@ -534,6 +535,9 @@ fn c02_host(v: &Value) -> Value {
     }
     if ra {
         mask |= NetworkFilterMask::IS_RIGHT_ANCHOR;
+    }
+    if unanchored {
+        mask |= NetworkFilterMask::IS_HOSTNAME_REGEX;
     }
     let nf = mk_filter(mask.bits(), FilterPart::Simple(f.clone()), Some(fh.clone()), None);
     let req = mk_request(&url, &rh, RequestType::Script, false, true, false, None);
@@ -544,7 +548,12 @@ fn c02_host(v: &Value) -> Value {
         for p in 0..=rhb.len() - fhb.len() {
             if eq_at(rhb, p, fhb) {
                 let e = p + fhb.len();
-                if (p == 0 || fhb[0] == b'.' || rhb[p - 1] == b'.') && (e == rhb.len() || fhb[fhb.len() - 1] == b'.' || rhb[e] == b'.') {
+                let left = p == 0 || fhb[0] == b'.' || rhb[p - 1] == b'.';
+                if unanchored {
+                    if left && (4 + e..=ub.len()).any(|k| eq_at(ub, k, fb)) {
+                        want = true;
+                    }
+                } else if left && (e == rhb.len() || fhb[fhb.len() - 1] == b'.' || rhb[e] == b'.') {
                     let start = 4 + e;
                     if eq_at(ub, start, fb) && (!ra || start + fb.len() == ub.len()) {
                         want = true;
@@ -555,7 +564,7 @@ fn c02_host(v: &Value) -> Value {
     }
     // the same through a realistic scheme and rule text
     let url2 = format!("https://{}{}", rh, tail);
-    let line = format!("||{}{}{}", fh, f, if ra { "|" } else { "" });
+    let line = if unanchored { format!("||{}*{}", fh, f) } else { format!("||{}{}{}", fh, f, if ra { "|" } else { "" }) };
     let lift = NetworkFilter::parse(&line, false, Default::default()).ok().and_then(|p| Request::new(&url2, "", "script").ok().map(|r| json!({"rule": line, "url": url2, "matcher": matches(&p, &r)})));
     json!({"reproduced": got != want, "got": got, "want": want, "filter_host": fh, "remainder": f, "url": url, "lift": lift})
 }
